@@ -71,7 +71,7 @@ M = {
                           'IFERROR fallback evaluated eagerly (the repaired defect)'),
     'c13-ifs-error-anywhere': ('C13', [(CTX, "            condition = value_of(flatten_list[index])\n", "            condition = value_of(flatten_list[index])\n            if index == 0 and self._find_error_in_list([value_of(i) for i in flatten_list[1::2]]):\n                return self._find_error_in_list([value_of(i) for i in flatten_list[1::2]])\n")],
                                'IFS scans all values for error texts first (the repaired defect)'),
-    'c13-ifs-no-match-value': ('C13', [(CTX, "            index += 2\n\n        return '#N/A'\n\n\n    def _search", "            index += 2\n\n        return '#VALUE!'\n\n\n    def _search")],
+    'c13-ifs-no-match-value': ('C13', [(CTX, "                return value_of(flatten_list[index + 1])\n            index += 2\n\n        return '#N/A'", "                return value_of(flatten_list[index + 1])\n            index += 2\n\n        return '#VALUE!'")],
                                'IFS without a true condition returns #VALUE! instead of #N/A'),
     'c13-iferror-only-exceptions': ('C13', [(CTX, "            is_error = bool(self._find_error_in_list([cell]))", "            is_error = False")],
                                     'IFERROR only catches failures, not error values'),
@@ -80,8 +80,8 @@ M = {
     'c17-mid-start': ('C17', [(CTX, "        return text[start_num - 1:start_num + num_chars - 1]", "        return text[start_num - 1:start_num + num_chars - 1] if start_num > 1 else text[0:num_chars + 1]")],
                       'MID from position 1 returns one character too many'),
     'c17-search-from-zero': ('C17', [(CTX, "search(within_text, start_num - 1)", "search(within_text, 0)")], 'SEARCH ignores the start position'),
-    'c17-search-case': ('C17', [(CTX, "re.compile(pattern, re.IGNORECASE | re.DOTALL)", "re.compile(pattern, re.DOTALL)")], 'SEARCH is case-sensitive'),
-    'c17-search-tilde': ('C17', [(CTX, "and find_text[index + 1] in '?*~':", "and find_text[index + 1] in '?*':")], '~~ is not an escaped tilde'),
+    'c17-search-case': ('C17', [(CTX, "re.compile(self._wildcard_pattern(find_text), re.IGNORECASE | re.DOTALL)", "re.compile(self._wildcard_pattern(find_text), re.DOTALL)")], 'SEARCH is case-sensitive'),
+    'c17-search-tilde': ('C17', [(CTX, "and text[index + 1] in '?*~':", "and text[index + 1] in '?*':")], '~~ is not an escaped tilde'),
     'c17-blank-text-form': ('C17', [(CTX, "        if isinstance(value, self.EmptyCell):\n            return ''\n\n        if isinstance(value, bool):", "        if isinstance(value, bool):")],
                             'a blank operand of & becomes "0" again (the repaired defect)'),
     'c17-value-int-only': ('C17', [(CTX, "            text = text.replace(\",\", \".\")\n            return float(text)", "            text = text.replace(\",\", \".\")\n            return float(text) if 'e' not in text.lower() else '#VALUE!'")],
@@ -102,6 +102,29 @@ M = {
                                'the derived SUMIF target range is one row short for criteria ranges taller than 6'),
     'c12-second-pair-ignored': ('C12', [(CTX, "        for [_range, criteria] in range_and_criteria_zip:\n            for i in range(len(_range)):\n                if not criteria(_range[i]):\n                    sum_range[i] = None", "        for [_range, criteria] in range_and_criteria_zip[:2]:\n            for i in range(len(_range)):\n                if not criteria(_range[i]):\n                    sum_range[i] = None")],
                                 'SUMIFS ignores the third criteria pair'),
+    # ---- checks built in earlier rounds --------------------------------------------------------------------------------------
+    'c01-percent-tenth': ('C01', [(SRC + 'translators/expression_token_translator.py', "f'self._normalize_float_number({operand} / 100)'", "f'self._normalize_float_number({operand} / 100.0000000001)'")],
+                          'x% is x/100.0000000001'),
+    'c01-amp-precedence': ('C01', [(SRC + 'translators/expression_token_translator.py', "AmpersandToken: 2,", "AmpersandToken: 3,")], '& binds as tightly as + -'),
+    'c03-area-cells-not-registered': ('C03', [(SRC + 'translators/matrix_of_cell_identifiers_token_translator.py', "CellTranslator.translate(j, excel, context) for j in i",
+                                               "(CellTranslator.translate(j, excel, context) if excel.fill_cell(j).column < 3 else context._get_cell_with_cell_preprocessor(j.uid)) for j in i")],
+                                      'cells of areas right of column C are referenced without being translated: missing from entry-point slices'),
+    'c04-merge-order': ('C04', [(SRC + 'utilities/executor.py', "self._cells = {**self._cells, **{cell.uid: cell for cell in cells}}", "self._cells = {**{cell.uid: cell for cell in cells}, **self._cells}")],
+                        'the first write to a cell wins'),
+    'c05-accept-tail': ('C05', [(SRC + 'ast_builder.py', "        if token is None or unparsed_tokens:", "        if token is None or len(unparsed_tokens) > 1:")], 'one unparsed trailing token is tolerated'),
+    'c07-literal-hand-quoted': ('C07', [(SRC + 'tokens/regexp_tokens/__init__.py', "            real_value = repr(self.value[1])", "            real_value = \"'\" + self.value[1].replace(\"'\", \"\\\\'\") + \"'\"")],
+                                'string literals quoted by hand (backslash not escaped)'),
+    'c09-dirty-flag-entry': ('C09', [(SRC + 'utilities/parser.py', "        self._entrypoint_cell = copy(cell) if cell is not None else None\n        self._entrypoint_cell_has_been_changed = True", "        self._entrypoint_cell = copy(cell) if cell is not None else None")],
+                             'changing the entry cell does not invalidate the cached translation (the repaired defect)'),
+    'c10-le-on-equal-texts': ('C10', [(CTX, "            case '<=':\n                return left_operand <= right_operand", "            case '<=':\n                return left_operand < right_operand or (left_operand == right_operand and not isinstance(left_operand, str))")],
+                              '<= is false for two equal texts'),
+    'c14-vlookup-lt': ('C14', [(CTX, "                if row[0] <= lookup_value:", "                if row[0] < lookup_value:")], 'approximate VLOOKUP takes keys strictly below the value'),
+    'c15-weekend-sunday-only': ('C15', [(CTX, "if start.weekday() not in [5, 6] and start not in additional_days:", "if start.weekday() not in [6] and start not in additional_days:")], 'Saturdays count as working days'),
+    'c15-date-month-clamp': ('C15', [(CTX, "        result_date += relativedelta(months=month - 1)", "        result_date += relativedelta(months=min(month, 24) - 1)")], 'DATE clamps months above 24'),
+    'c16-half-even': ('C16', [(CTX, "        return self._decimal_round(number, num_digits, ROUND_HALF_UP)", "        return self._decimal_round(number, num_digits, 'ROUND_HALF_EVEN')")], 'ROUND rounds ties to even'),
+    'c19-report-column-index': ('C19', [(SRC + 'excel.py', "suspicious_cells[f\"'{worksheet.title}'{cell.column_letter}{cell.row}\"]", "suspicious_cells[f\"'{worksheet.title}'{cell.column_letter}{index + 1 if cell.row > 40 else cell.row}\"]")],
+                                'rows above 40 are reported by the position within the row'),
+    'c20-one-copy-edited': ('C20', [(ABS, "        if start_num < 1:\n            return '#NUM!'", "        if start_num < 0:\n            return '#NUM!'")], 'MID edited in the abstract class only'),
 }
 
 
